@@ -28,7 +28,7 @@ class Broken(Exception):
 
 
 POOL = ["a", "b", "c", "n1", "n2", "n3", "n4"]
-STARTS = ["new+set_bigarray", "file", "dict", "hdf", "empty", "dict-int"]
+STARTS = ["new+set_bigarray", "file", "dict", "hdf", "empty", "dict-int", "dict-readonly-column"]
 
 
 def start(columnfile, kind, r, tmpdir, tag):
@@ -45,6 +45,12 @@ def start(columnfile, kind, r, tmpdir, tag):
         return cf
     if kind in ("dict", "dict-int"):
         return columnfile.colfile_from_dict(OrderedDict((t, np.array(data[t])) for t in titles))
+    if kind == "dict-readonly-column":
+        # one column is a read-only array (a memory-mapped column, a view of somebody else's data); a row operation that
+        # cannot write it is refused, and a refusal leaves every column as it was
+        arrs = OrderedDict((t, np.array(data[t])) for t in titles)
+        arrs["b"].flags.writeable = False
+        return columnfile.colfile_from_dict(arrs)
     if n == 0:
         n = 3
         data = OrderedDict((t, np.round(r.uniform(-9, 9, n) * 4) / 4) for t in titles)
@@ -418,6 +424,8 @@ def run_history(run, columnfile, seed_rng, start_kind, length, tmpdir, tag, repl
         run.violation("free:start:%s:%s" % (start_kind, b.key), b.what, replay_desc)
         return
     for k in range(length):
+        readonly = [t for t in cf.titles if not np.asarray(cf.getcolumn(t)).flags.writeable]
+        before = snapshot(cf)[0] if readonly else None
         try:
             cf, opk = step(columnfile, cf, r, log)
             run.count("free_steps_checked")
@@ -434,6 +442,19 @@ def run_history(run, columnfile, seed_rng, start_kind, length, tmpdir, tag, repl
             return
         except Exception as e:
             opn = log[-1].split("(")[0]
+            if readonly and isinstance(e, ValueError) and "read-only" in str(e):
+                # the operation could not write a read-only column: a legitimate refusal - if nothing was half done
+                run.count("free_refusals_on_read_only_columns")
+                try:
+                    rectangular(cf, " -> ".join(log[-6:]))
+                    for t, v in before.items():
+                        if t not in cf.titles or not np.array_equal(fl(cf.getcolumn(t)), v, equal_nan=True):
+                            raise Broken("half-applied-after-refusal", "%s raised '%s' and left column %s changed: the operation "
+                                         "was applied to some columns and not to others" % (" -> ".join(log[-6:]), e, t))
+                except Broken as b:
+                    run.violation("free:%s:%s" % (opn, b.key), "%s" % b.what, dict(replay_desc, steps=k + 1, log=log[-8:]))
+                    return
+                continue
             import traceback
             tb = traceback.extract_tb(e.__traceback__)[-1]
             run.violation("free:%s:exception:%s" % (opn, type(e).__name__),
